@@ -2,6 +2,7 @@ package props
 
 import (
 	"fmt"
+	"gorgonia.org/tensor"
 	"reflect"
 
 	"verifharness/core"
@@ -92,6 +93,7 @@ func c16Groups(tier string) []core.Group {
 		}
 	}
 	gs = append(gs, core.Group{Key: "product/Trace", Run: c09Trace})
+	gs = append(gs, core.Group{Key: "reuse-then-use", Run: c16ReuseThenUse})
 	// assembling
 	for _, op := range []string{"Concat", "Stack", "Repeat"} {
 		for _, t := range []reflect.Type{model.TInt8, model.TF64, model.TStr} {
@@ -196,4 +198,78 @@ func c16Elementwise(c *core.Ctx, fam, op string) {
 		sym, _ := ewCompare(o, bad, model.Equal)
 		c.Control(sym != "")
 	}
+}
+
+// c16ReuseThenUse: a tensor that has served as reuse destination for operands of the other data order is used as an operand
+// afterwards. (The suite pins that such a destination reports the operands' order flag while keeping its strides; whatever
+// its flags say, it must still be the array it reads as.)
+func c16ReuseThenUse(c *core.Ctx) {
+	bin := map[string]func(a, b interface{}, opts ...tensor.FuncOpt) (tensor.Tensor, error){"Add": tensor.Add, "Sub": tensor.Sub, "Mul": tensor.Mul, "Gt": tensor.Gt, "MaxBetween": tensor.MaxBetween}
+	for _, t := range []reflect.Type{model.TF64, model.TInt32} {
+		for _, shape := range [][]int{{2, 3}, {3, 2, 2}} {
+			n := model.Size(shape)
+			for _, first := range [][2]string{{gen.LF, gen.LC}, {gen.LC, gen.LF}, {gen.LFconv, gen.LC}} { // (operand layout, destination layout)
+				for _, second := range []string{gen.LC, gen.LF, gen.LT} {
+					for opn, f := range bin {
+						a, pa := ewBuild(c, t, shape, first[0], gen.SmallInts(t, n, c.Rng, 1, 9), nil, nil)
+						r, pr := ewBuild(c, t, shape, first[1], gen.Canary(t, n, 99), nil, nil)
+						y, py := ewBuild(c, t, shape, second, gen.SmallInts(t, n, c.Rng, 1, 9), nil, nil)
+						if pa != "" || pr != "" || py != "" || a.op.Layout != first[0] || r.op.Layout != first[1] || y.op.Layout != second {
+							continue
+						}
+						if _, err := tensor.Add(a.op.D, model.One(t), tensor.WithReuse(r.op.D)); err != nil {
+							c.Refused("first-use")
+							continue
+						}
+						rm, err := gen.ReadAll(r.op.D)
+						if err != nil {
+							continue
+						}
+						key := core.Sig("reuse-then-use", opn, model.Name(t), shapeStr(shape), first[0]+">"+first[1], second)
+						caseKey := fmt.Sprintf("reuse-then-use/%s/%s/%s/%s>%s/%s", opn, model.Name(t), shapeStr(shape), first[0], first[1], second)
+						desc := map[string]interface{}{"first": "Add(a, 1, WithReuse(r))", "a_layout": first[0], "r_layout": first[1], "then": opn + "(r, y)", "y_layout": second, "shape": shape, "dtype": model.Name(t)}
+						for _, swap := range []bool{false, true} {
+							var res tensor.Tensor
+							var rerr error
+							p, _ := core.Catch(func() {
+								if swap {
+									res, rerr = f(y.op.D, r.op.D)
+								} else {
+									res, rerr = f(r.op.D, y.op.D)
+								}
+							})
+							c.Eval(key, true)
+							if p || rerr != nil {
+								c.Refused("second-use:" + opn)
+								continue
+							}
+							want := make([]interface{}, n)
+							for i := range want {
+								x1, x2 := rm.V[i], y.op.M.V[i]
+								if swap {
+									x1, x2 = x2, x1
+								}
+								if opn == "Gt" {
+									want[i], _ = model.Cmp("Gt", x1, x2)
+								} else {
+									want[i], _ = model.Bin(opn, x1, x2)
+								}
+							}
+							wt := t
+							if opn == "Gt" {
+								wt = model.TBool
+							}
+							if e := gen.ReadMatchesBy(res, model.New(wt, shape, want), model.Equal); e != nil {
+								c.Violation(core.Sig("reuse-then-use", opn, first[0]+">"+first[1], second, "wrong-values"), caseKey, desc, short(want), e.Error())
+							}
+						}
+						if c.WantSample("reuse-then-use") {
+							c.Sample("reuse-then-use", desc)
+						}
+					}
+				}
+			}
+		}
+	}
+	c.Control(true)
 }
